@@ -98,6 +98,17 @@ def make(rng, entry, charset='E', nfaults=None, multi=None, alphabet=V.PLAIN, fa
             s_['st']['vals'][1] = bad
             s_['se']['vals'][1] = bad
             tfaults.append((-1, 'st02_element_error'))
+    if trailer_faults and rng.random() < 0.1:
+        # an element error on a trailer alone, in a set / group that is otherwise in order: an element too many, or a count
+        # that is the right number but written too long (the reader's own count and control-number checks stay satisfied)
+        tr = [s_ for s_ in doc if s_['id'] in ('SE', 'SE', 'GE') and len(s_['vals']) >= 2 and s_['vals'][0].isdigit()]
+        if tr:
+            s_ = rng.choice(tr)
+            if rng.random() < 0.6:
+                s_['vals'] = s_['vals'][:2] + ['X1']
+            else:
+                s_['vals'][0] = s_['vals'][0].rjust(12, '0')
+            tfaults.append((-1, 'trailer_element_error'))
     if trailer_faults and entry['icvn'] == '00501' and rng.random() < 0.08:
         # a 5010 set header without its ST03 (the acknowledgement copies ST03 when it is there)
         sts = [s_ for s_ in doc if s_['id'] == 'ST' and len(s_['vals']) >= 3]
